@@ -198,6 +198,12 @@ def source(shape, variant, uid):
         nondirect = True
     ypeer = ", peer=dict(m=1)" if shape["classes"][r_].get("peer") else ""
     gen_lines = [f"{ind}@parse", f"{ind}def gen(k: int) -> {gann}:", f"{ind}    for i in range(k):", f"{ind}        yield dict(v=str(i){ypeer})", ""]
+    if any(c.get("lt") for c in shape["classes"]):
+        # extra keyword arguments typed by the late MODULE-level class (a string also when the function is local)
+        gen_lines += [f"{ind}@parse", f"{ind}def fk(n: int = 0, **extra: 'LateTop{uid}'):",
+                      f"{ind}    return sorted((k, type(x).__name__, x.m) for k, x in extra.items())", ""]
+        extra_names.append("fk")
+        nondirect = True
     if variant.get("fn_first") and variant["style"] != "local" and gsp != "direct":
         # declared before the classes exist: the return annotation is a late reference
         at = next(k for k, l in enumerate(lines) if l.startswith("@parse") or l.startswith("class "))
@@ -542,6 +548,14 @@ def run_case(case, ctx):
                 exp3 = [bare_exp(shape, f["ret"], 0), bare_exp(shape, f["ret"], 1)]
                 if not o3.ok or o3.value != norm(exp3) or not all(isinstance(x, ns[names[f["ret"]]]) for x in ns["gen"](1)):
                     problems = ("generator", "gen", 2, exp3, o3, 1)
+            if not problems and "fk" in ns:
+                for rep in (1, 2):
+                    o4 = run(lambda: ns["fk"]("1", z={"m": "3"}, y={"m": 4}))
+                    ctx.count("parses")
+                    exp4 = [("y", "LateTop%d" % uid, 4), ("z", "LateTop%d" % uid, 3)]
+                    if not o4.ok or [tuple(x) for x in o4.value] != exp4:
+                        problems = ("kwargs-function", "fk", {"z": {"m": "3"}, "y": {"m": 4}}, exp4, o4, rep)
+                        break
             if problems:
                 kind, ci, data, exp, out, rep = problems
                 mech = mechanism(shape, variant, names, out)
